@@ -645,7 +645,33 @@ func c11Funnel(r *Run) {
 	wf := s.writeFrame
 	facts := factsIn(wf)
 	downs := callsIn(wf, isFn(w.Fn("hsms", "connection.TCPDown")))
-	if len(downs) != 1 {
+	if len(downs) == 0 {
+		// the drop may have been hoisted into the callers: then EVERY caller of writeFrame must drop
+		// the link when writeFrame failed (directly or through one helper that calls TCPDown)
+		tcpDown := w.Fn("hsms", "connection.TCPDown")
+		reachesDown := func(fn *ssa.Function) bool {
+			if len(callsIn(fn, isFn(tcpDown))) > 0 {
+				return true
+			}
+			for _, c := range callsIn(fn, func(cl Callee) bool { return cl.Static != nil && fnPkgPath(cl.Static) == fnPkgPath(wf) }) {
+				if len(callsIn(calleeOf(c).Static, isFn(tcpDown))) > 0 {
+					return true
+				}
+			}
+			return false
+		}
+		nCallers := 0
+		for _, u := range w.usesOf(wf) {
+			if !w.IsProd(u.Fn) {
+				continue
+			}
+			nCallers++
+			r.Check(reachesDown(u.Fn), rule, "write failure drops the link: caller "+w.FnName(u.Fn), u.Pos(), "TCPDown on the caller's error path", "writeFrame no longer drops the link on a write failure and this caller does not either: a peer that stopped reading is never disconnected on this send path")
+		}
+		if nCallers == 0 {
+			r.Undecided(rule, "writeFrame: TCPDown on write error", wf.Pos(), "no TCPDown in writeFrame and no callers found")
+		}
+	} else if len(downs) != 1 {
 		r.Undecided(rule, "writeFrame: TCPDown on write error", wf.Pos(), "expected one TCPDown call, found %d", len(downs))
 	} else {
 		errOK, ctxOK := false, false
